@@ -1,6 +1,7 @@
 SPECIFICATION Spec
 CONSTANTS
-  MaxRetry = 1
+  MaxRetryC = 1
+  MaxRetryR = 1
   MaxFail = 0
   MaxDepth = 3
   MaxKids = 2
